@@ -150,8 +150,22 @@ def gen_block(rng, max_tx=4, big_ok=False, many=False, valid_merkle=True):
 
 # ---------------------------------------------------------------- P2P messages
 
+# well-known IPv6 ranges an address book really holds (an implementation tempted to special-case one
+# of them must still carry the 16 bytes through unchanged)
+SPECIAL_V6_PREFIXES = ['fd87d87eeb43',          # OnionCat (Tor v2 in pre-addrv2 gossip)
+                       'fd60db4dddb5',          # GarliCat (I2P)
+                       '2002', '20010000',      # 6to4, Teredo
+                       'fe80', 'fc00', 'fd00',  # link-local, unique local
+                       '0064ff9b',              # NAT64
+                       'ff02', '20010db8',      # multicast, documentation
+                       '00000000000000000000fffe']  # one bit off the IPv4-mapped prefix
+
+
 def gen_ip(rng):
     r = rng.random()
+    if r < 0.12:
+        pre = rng.choice(SPECIAL_V6_PREFIXES)
+        return pre + rhex(rng, 16 - len(pre) // 2)
     if r < 0.5:
         return ('00' * 10 + 'ffff' + rhex(rng, 4))
     if r < 0.6:
